@@ -916,3 +916,105 @@ def _rc_contract(la, le):
 for _la in range(_cs_max_lines() + 1):
     for _le in range(_cs_max_lines() + 1):
         _rc_contract(_la, _le)
+
+
+# ---------------------------------------------------------------------------
+# check_file (C04, the file-against-file entry point): both files are read whole with the same encoding and cut into
+# lines the same way; those two line lists, the two paths and every option go to check_strings unchanged and its
+# verdict is the result; a missing reference or actual file is a failure (1), reported without comparing.
+# ---------------------------------------------------------------------------
+
+def _cf_entry(it, senv):
+    state = {'missing': it.path.choose([True, True, True])}       # 0: both there, 1: reference missing, 2: actual missing
+    it.ghost['cf_missing'] = state['missing']
+
+    def ghost_open(it2, path, mode='r', *a, **k):
+        which = 'expected' if path is senv['expected_path'] else ('actual' if path is senv['actual_path'] else None)
+        if which is None:
+            raise Unsupported('a file other than the two under comparison is opened')
+        if (which == 'expected' and state['missing'] == 1) or (which == 'actual' and state['missing'] == 2):
+            raise PyExc('IOError', 'No such file: %s' % which)
+        it2.ghost.setdefault('opened', []).append((which, k.get('encoding')))
+        text = SObj('text', {'__open__': False, 'of': which}, label='content of ' + which)
+        text.methods['splitlines'] = Builtin(lambda it3, self, *args: ('lines-of', which, 'splitlines', args), 'splitlines')
+        text.methods['split'] = Builtin(lambda it3, self, *args: ('lines-of', which, 'split', args), 'split')
+        text.methods['endswith'] = Builtin(lambda it3, self, s: it3.fresh(T.bool, 'endswith'), 'endswith')
+        f = SObj('file', {'__open__': False}, label=which)
+        f.methods['read'] = Builtin(lambda it3, self, *args: text, 'read')
+        # iterating over the file gives its lines one by one (with their line ends): a different way of cutting
+        ln = SObj('text', {'__open__': False, 'of': which}, label='a line of ' + which)
+        for m in ('rstrip', 'strip', 'lstrip'):
+            ln.methods[m] = Builtin(lambda it3, self, *args, m=m: ('line-of', which, m, args), m)
+        f.attrs['__iter__'] = [ln]
+        f.methods['readlines'] = Builtin(lambda it3, self: [ln], 'readlines')
+        f.methods['__enter__'] = Builtin(lambda it3, self: self, '__enter__')
+        f.methods['close'] = Builtin(lambda it3, self: None, 'close')
+        return f
+    it.spec_env['open'] = Builtin(ghost_open, 'open')
+    diffs = SObj('Diffs', {'__open__': True}, label='msgs')
+    it.spec_env['Diffs'] = Builtin(lambda it2: diffs)
+
+
+class _CheckFile(Contract):
+    def verify(self, registry=None, quick=False):
+        reg = dict(REGISTRY if registry is None else registry)
+
+        def cs_effect(it, env):
+            code = it.fresh(T.union(T.const(0), T.const(1)), 'check_strings.code')
+            it.ghost.setdefault('cs_calls', []).append((env.get('actual'), env.get('expected'),
+                                                        dict(env.get('_extra_kwargs') or {}), code))
+            return (code, (env.get('_extra_kwargs') or {}).get('msgs'))
+        cs = Contract(CF + 'FilesComparison.check_strings', params=dict(actual=None, expected=None), effects=cs_effect,
+                      result=T.none, name='check_strings', spec_env=ENV,
+                      trusted_note='verified separately (per-shape views); here only what it is given and its verdict')
+        cs.varargs_ok = True
+        reg[CF + 'FilesComparison.check_strings'] = cs
+        af = Contract(CF + 'FilesComparison.add_failures', params={}, effects=lambda it, env: None, result=T.none,
+                      assumed=True, name='add_failures(report)', spec_env=ENV)
+        af.varargs_ok = True
+        reg[CF + 'FilesComparison.add_failures'] = af
+        return Contract.verify(self, reg, quick)
+
+
+@specfn
+def files_compared_as_texts_split_alike(it, result, actual_path, expected_path, options):
+    missing = it.ghost['cf_missing']
+    calls = it.ghost.get('cs_calls', [])
+    if missing:
+        return not calls and isinstance(result, tuple) and result[0] == 1
+    if len(calls) != 1:
+        return False
+    a, e, kw, code = calls[0]
+    opened = dict(it.ghost.get('opened', []))
+    def how(x):
+        # (which file, how it was cut into lines)
+        if isinstance(x, tuple) and x and x[0] == 'lines-of':
+            return x[1], ('whole text', x[2], x[3])
+        if isinstance(x, list) and len(x) == 1 and isinstance(x[0], tuple) and x[0][0] == 'line-of':
+            return x[0][1], ('line by line', x[0][2], x[0][3])
+        return None, None
+    (wa, ha), (we, he) = how(a), how(e)
+    alike = wa == 'actual' and we == 'expected' and ha is not None and ha == he
+    same_enc = set(opened) == {'actual', 'expected'} and (opened['actual'] is opened['expected'])
+    handed_on = (kw.get('actual_path') is actual_path and kw.get('expected_path') is expected_path
+                 and all(kw.get(k) is v for k, v in options.items()))
+    return bool(alike and same_enc and handed_on and isinstance(result, tuple) and result[0] is code)
+
+
+_CFOPT = ('lstrip', 'rstrip', 'ignore_substrings', 'ignore_patterns', 'remove_lines', 'preprocess',
+          'max_permutation_cases', 'msgs')
+_cfc = _CheckFile(CF + 'FilesComparison.check_file', props=['C04'],
+                  params=OrderedDict([('actual_path', T.str), ('expected_path', T.str)]
+                                     + [(k, T.opaque) for k in _CFOPT if k != 'msgs']
+                                     + [('msgs', T.const(None)), ('encoding', T.opaque)]),
+                  self_view=_perm_view, on_entry=_cf_entry,
+                  spec_env=dict(ENV, files_compared_as_texts_split_alike=files_compared_as_texts_split_alike),
+                  result=T.none,
+                  ensures=[('both-files-read-and-split-alike-options-handed-on-a-missing-file-is-a-failure',
+                            'files_compared_as_texts_split_alike(result, actual_path, expected_path, '
+                            'dict(lstrip=lstrip, rstrip=rstrip, ignore_substrings=ignore_substrings, '
+                            'ignore_patterns=ignore_patterns, remove_lines=remove_lines, preprocess=preprocess, '
+                            'max_permutation_cases=max_permutation_cases))')])
+REGISTRY[_cfc.ident] = _cfc
+_cfc.abstraction = ('the two files are stubs whose whole text is an opaque object; cutting it into lines yields a '
+                    'description of how it was cut; check_strings is used through a stub that records what it is given')
